@@ -28,6 +28,7 @@ func checkC09(w *World, r *Report) {
 	r.Rule("VEST-DISTINCT", "release times are strictly increasing and after the end time (they key the queue)", 4)
 	vestingObligations(w, r, NewTerms(w))
 	r.Sub(checkC08, "TIME-REL", "FINISH-LAST")
+	checkCoinsCtor(w, r, NewTerms(w))
 }
 
 // vestingObligations adds the VEST-* obligations (shared by C09 and, for the vesting escrow clause, C01).
@@ -40,30 +41,40 @@ func vestingObligations(w *World, r *Report, tm *Terms) {
 	initTree := w.reachableFrom(initM)
 
 	type vqSite struct {
-		fn       *ssa.Function
+		fn       *ssa.Function // the operation the write belongs to (nearest exported function up the calling context)
+		opFr     *Frame        // its frame in that context
 		in       ssa.CallInstruction
 		key, val *Term
 	}
 	var sites []vqSite
-	for _, fn := range w.Funcs {
-		if w.isGenerated(fn) || pkgOf(fn) == nil || pkgOf(fn).Path() == simPath {
-			continue
+	seenSite := map[string]bool{}
+	for _, cs := range tm.sitesWhere(w.apiRoots(), func(fr *Frame, in ssa.Instruction) bool {
+		if w.isGenerated(fr.Fn) || pkgOf(fr.Fn) == nil || pkgOf(fr.Fn).Path() == simPath {
+			return false
 		}
-		fr := tm.Root(fn)
-		for _, b := range fn.Blocks {
-			for _, in := range b.Instrs {
-				e := w.EffectOf(in)
-				if e == nil || e.Kind != EffStoreWrite || e.Coll != "VestingQueue" {
-					continue
-				}
-				c := in.(ssa.CallInstruction)
-				s := vqSite{fn: fn, in: c}
-				if e.Method == "Set" && len(c.Common().Args) >= 4 {
-					s.key, s.val = tm.OperandAt(fr, in, c.Common().Args[2]), tm.OperandAt(fr, in, c.Common().Args[3])
-				}
-				sites = append(sites, s)
+		e := w.EffectOf(in)
+		return e != nil && e.Kind == EffStoreWrite && e.Coll == "VestingQueue"
+	}) {
+		// the operation: the nearest frame (from the write upwards) whose function is exported
+		opFr := cs.Fr
+		for f := cs.Fr; f != nil; f = f.Parent {
+			opFr = f
+			if obj := funcObj(f.Fn); obj != nil && obj.Exported() && f.Fn.Parent() == nil {
+				break
 			}
 		}
+		k := fmt.Sprintf("%p|%s", cs.In, opFr.Fn.String())
+		if seenSite[k] {
+			continue
+		}
+		seenSite[k] = true
+		c := cs.In.(ssa.CallInstruction)
+		e := w.EffectOf(cs.In)
+		s := vqSite{fn: opFr.Fn, opFr: opFr, in: c}
+		if e.Method == "Set" && len(c.Common().Args) >= 4 {
+			s.key, s.val = tm.OperandAt(cs.Fr, cs.In, c.Common().Args[2]), tm.OperandAt(cs.Fr, cs.In, c.Common().Args[3])
+		}
+		sites = append(sites, s)
 	}
 	// ---------------------------------------------------------------- VEST-WRITERS
 	var fill, release []vqSite
@@ -109,7 +120,7 @@ func vestingObligations(w *World, r *Report, tm *Terms) {
 	}
 	for _, s := range fill {
 		fn := s.fn
-		fr := tm.Root(fn)
+		fr := s.opFr
 		name := fnName(fn)
 		// the sweep into the vesting escrow by the same operation (the function that fills the queue, or — when that is a
 		// helper — the operation it belongs to)
@@ -278,7 +289,8 @@ func vestingObligations(w *World, r *Report, tm *Terms) {
 		}
 		r.Check(okR, "VEST-REM", name+":remainder", w.instrPos(s.in), "the alternative amount is the running remainder R (R0 = swept total, R' = R − stored amount)", whyR)
 		// selection: remainder iff index == len(schedules)-1 of the iterated list
-		okSel, whySel := remainderSelection(w, tm, fn, fr, s.val)
+		okSel, whySel := remainderSelectionX(w, tm, operationOf(w, fn), s.in)
+		_ = remainderSelection
 		r.Check(okSel, "VEST-REM", name+":last-index", w.instrPos(s.in), "the remainder is stored exactly for index = len(schedules) − 1 of the iterated schedule list", whySel)
 		// rounding direction of the remainder relative to its exact share is CEIL by construction; nothing to check numerically
 	}
@@ -289,7 +301,7 @@ func vestingObligations(w *World, r *Report, tm *Terms) {
 	}
 	for _, s := range release {
 		fn := s.fn
-		fr := tm.Root(fn)
+		fr := s.opFr
 		name := fnName(fn)
 		base := s.val
 		for base.Op == "upd" {
@@ -304,19 +316,22 @@ func vestingObligations(w *World, r *Report, tm *Terms) {
 			fmt.Sprintf("value %s under key %s", s.val.String(), s.key.String()))
 		// transfers in this function
 		nT := 0
-		for _, b := range fn.Blocks {
-			for _, in := range b.Instrs {
+		seenT := map[ssa.Instruction]bool{}
+		// the transfers of the release operation, wherever they are written (the operation or a helper of it)
+		tm.walkFrom(fr, func(tfr *Frame, in ssa.Instruction) {
+			{
 				e := w.EffectOf(in)
-				if e == nil || e.Kind != EffTransfer {
-					continue
+				if e == nil || e.Kind != EffTransfer || seenT[in] {
+					return
 				}
+				seenT[in] = true
 				nT++
 				a := in.(ssa.CallInstruction).Common().Args
 				if e.Method != "SendCoins" || len(a) != 4 {
 					r.Fail("VEST-ONCE", name+":transfer", w.instrPos(in), "the release is one SendCoins", "unexpected "+e.Method)
-					continue
+					return
 				}
-				from, to, amt := tm.OperandAt(fr, in, a[1]), tm.OperandAt(fr, in, a[2]), tm.OperandAt(fr, in, a[3])
+				from, to, amt := tm.OperandAt(tfr, in, a[1]), tm.OperandAt(tfr, in, a[2]), tm.OperandAt(tfr, in, a[3])
 				var bad []string
 				if !from.Any(func(t *Term) bool { return isField(t, "VestingReserveAddress") }) {
 					bad = append(bad, "payer "+from.String()+" is not the vesting escrow")
@@ -337,7 +352,7 @@ func vestingObligations(w *World, r *Report, tm *Terms) {
 				r.Check(len(bad) == 0, "VEST-ONCE", name+":transfer", w.instrPos(in),
 					"the release pays the iterated record's own PayingCoin from the vesting escrow to the auctioneer", strings.Join(bad, "; "))
 			}
-		}
+		})
 		// pairing on every path
 		pr := &pairRule{w: w, isA: func(in ssa.Instruction) bool { e := w.EffectOf(in); return e != nil && e.Kind == EffTransfer },
 			isB: func(in ssa.Instruction) bool { return in == s.in.(ssa.Instruction) }, fn: fn}
@@ -452,9 +467,7 @@ func (p *pairRule) CallResult(x *Explorer, fr *Frame, c ssa.CallInstruction) ([]
 }
 
 func (p *pairRule) OnInstr(x *Explorer, fr *Frame, in ssa.Instruction, st uint64) uint64 {
-	if fr.Fn != p.fn {
-		return st
-	}
+	// A and B may sit in the explored function or in helpers it calls
 	switch {
 	case p.isA(in):
 		if st&prPending != 0 {
@@ -471,11 +484,11 @@ func (p *pairRule) OnInstr(x *Explorer, fr *Frame, in ssa.Instruction, st uint64
 }
 
 func (p *pairRule) OnBlock(x *Explorer, fr *Frame, b, pred *ssa.BasicBlock, st uint64) uint64 {
-	if fr.Fn != p.fn || pred == nil {
+	if pred == nil {
 		return st
 	}
 	// re-entering a loop header along a back edge with A still pending
-	for _, l := range fnInfo(p.fn).Loops {
+	for _, l := range fnInfo(fr.Fn).Loops {
 		if l.Header == b && l.Blocks[pred] && st&prPending != 0 {
 			st |= prViol
 		}
@@ -484,6 +497,89 @@ func (p *pairRule) OnBlock(x *Explorer, fr *Frame, b, pred *ssa.BasicBlock, st u
 }
 
 // remainderSelection: the amount phi takes the remainder on the edge controlled by index == len(list)-1 (true).
+// selRule explores the queue-filling operation with the comparison "index ? last index of the schedule list" decided
+// one way, and classifies the amount stored at the VestingQueue write on each path: a freshly computed share or the
+// running remainder.
+type selRule struct {
+	*ordRule
+	w         *World
+	site      ssa.Instruction
+	share     int
+	remainder int
+	other     []string
+	used      int
+}
+
+func (s *selRule) Compare(x *Explorer, fr *Frame, op token.Token, l, r ssa.Value) AV {
+	v := s.ordRule.decide(x, fr, op, l, r)
+	if v.K != avUnknown {
+		s.used++
+	}
+	return v
+}
+
+func (s *selRule) OnInstr(x *Explorer, fr *Frame, in ssa.Instruction, st uint64) uint64 {
+	if in != s.site {
+		return st
+	}
+	args := in.(ssa.CallInstruction).Common().Args
+	if len(args) < 4 {
+		return st
+	}
+	val := x.TM.OperandAt(fr, in, args[3])
+	coin := normField(val, "PayingCoin", nil)
+	amount := coin
+	if coin.Op == "call" && strings.HasSuffix(coin.Name, sdkPath+".NewCoin") && len(coin.Args) == 2 {
+		amount = coin.Args[1]
+	}
+	for _, a := range amount.Alts() {
+		// a freshly computed share, or what is left (the running remainder, initially the swept total): VEST-REM's
+		// remainder obligation decides that the latter really is the remainder
+		if isExcursionRoot(a) {
+			s.share++
+		} else {
+			s.remainder++
+		}
+	}
+	return st
+}
+
+// remainderSelectionX: with index = last index every recorded instalment stores the remainder, with index < last index
+// every recorded instalment stores a share — however the comparison and the selection are spelled.
+func remainderSelectionX(w *World, tm *Terms, op *ssa.Function, site ssa.Instruction) (bool, string) {
+	var bad []string
+	used := 0
+	for _, ord := range []int{0, -1} {
+		sr := &selRule{ordRule: newOrdRule(w, func(*Effect) bool { return false }, ordPair{ord: ord, match: func(x *Explorer, fr *Frame, l, r *Term) int {
+			o := lastIndexPair(x, fr, l, r)
+			if o == 0 {
+				return 0
+			}
+			// the list is the vesting schedule list
+			if !(l.Any(func(t *Term) bool { return fieldBase(t, "VestingSchedules") != nil }) || r.Any(func(t *Term) bool { return fieldBase(t, "VestingSchedules") != nil })) {
+				return 0
+			}
+			return o
+		}}), w: w, site: site}
+		x := NewExplorer(w, tm, sr)
+		x.TrackPhi = true
+		x.Run(op, 0)
+		used += sr.used
+		switch {
+		case len(sr.other) > 0:
+			bad = append(bad, "the stored amount has the unexpected alternative "+sr.other[0])
+		case ord == 0 && (sr.share > 0 || sr.remainder == 0):
+			bad = append(bad, fmt.Sprintf("at index = len−1 the stored amount is a freshly computed share on %d path(s) and the remainder on %d: the last instalment does not take what is left", sr.share, sr.remainder))
+		case ord == -1 && (sr.remainder > 0 || sr.share == 0):
+			bad = append(bad, fmt.Sprintf("before the last index the stored amount is the remainder on %d path(s) and a share on %d: the remainder is taken at the wrong instalment", sr.remainder, sr.share))
+		}
+	}
+	if used == 0 {
+		return false, "no comparison of the loop index with len(schedules)−1 controls the stored amount: the remainder is taken at the wrong instalment or never"
+	}
+	return len(bad) == 0, strings.Join(bad, "; ")
+}
+
 func remainderSelection(w *World, tm *Terms, fn *ssa.Function, fr *Frame, val *Term) (bool, string) {
 	// find the If whose condition compares an index with len(x)-1 and whose true branch defines the remainder edge
 	for _, b := range fn.Blocks {
